@@ -531,7 +531,11 @@ namespace fixedmath
         if constexpr( is_unsigned_v<integral_type> && sizeof(integral_type) == sizeof(fixed_internal) )
           if( rh > static_cast<integral_type>( std::numeric_limits<fixed_internal>::max() ) )
             return fixed_t{}; //divisor does not fit into signed promotion and is greater than any |lh.v|
-        fixed_t const result = as_fixed( lh.v / promote_type_to_signed(rh) );
+        auto const divisor { promote_type_to_signed(rh) };
+        if constexpr( !is_unsigned_v<integral_type> )
+          if( fixed_unlikely( divisor == -1 ) ) //lowest raw value / -1 does not fit and the division traps, negate unsigned
+            return as_fixed( static_cast<fixed_internal>( fixed_internal_unsigned{0} - static_cast<fixed_internal_unsigned>(lh.v) ) );
+        fixed_t const result = as_fixed( lh.v / divisor );
 //         if( fixed_likely( check_division_result(result)) )
           return result;
         }
